@@ -3,6 +3,7 @@
     The same predicates are the conclusions of the theorems in [Properties/]. *)
 
 From Avt Require Export Spec.Screen Spec.Inert Spec.Williams Spec.Functions.
+From Avt Require Import Model.Parser.
 
 (** * C02 *)
 Definition holds_C02_state (v : vt) : bool :=
@@ -93,6 +94,27 @@ Definition spec_emit (p : parser) (c : N) : option func :=
   | KCsiDispatch => csi_spec (params p) (cur_param p) (inter p) c
   | KEscDispatch => esc_spec (inter p) c
   | _ => None
+  end.
+
+(** one step of the SPECIFICATION parser: Williams' transition + entry action, the hand-written function table for what is
+    emitted.  Independent of the generated tables; [Proofs/SpecParser.v] proves it equal to the model's [feedM]. *)
+Definition spec_feed (p : parser) (c : N) : parser * option func :=
+  let t := williams (pst p) c in
+  let p1 := if t_clear t then clear p
+            else match t_kind t with
+                 | KCollect => collect p c
+                 | KParam => param_step p c
+                 | _ => p
+                 end in
+  (p1 <| pst := t_next t |>, spec_emit p c).
+
+Fixpoint spec_run (p : parser) (cs : list N) : parser * list func :=
+  match cs with
+  | [] => (p, [])
+  | c :: r =>
+    let '(p1, f) := spec_feed p c in
+    let '(p2, fs) := spec_run p1 r in
+    (p2, match f with Some x => x :: fs | None => fs end)
   end.
 
 (** * C08 *)
